@@ -47,6 +47,7 @@ static struct Int* mapcell;
 static var map_add(var x) { return new(Int, $I(c_int(x) + 100)); }
 static var map_dbl(var x) { return new(Int, $I(c_int(x) * 2)); }
 static var map_neg(var x) { return new(Int, $I(-c_int(x))); }
+static var map_null_odd(var x) { return c_int(x) % 2 ? NULL : (var)new(Int, $I(c_int(x) + 100)); }
 static var mkfn(var (*f)(var)) { struct Function* fn = alloc_root(Function); fn->func = f; return fn; }
 
 #define U_SENTINEL 1000000
@@ -188,6 +189,25 @@ int main(int argc, char** argv) {
     if (hc_is(0, "nofail")) { nofail = 1; continue; }
     if (hc_is(0, "mapget")) { mapget = 1; continue; }
     if (hc_is(0, "getwhile")) { getwhile = 1; continue; }        /* in-contract observations only (C18: unchecked builds) */
+    if (hc_is(0, "zipnull")) {
+      /* zipnull <n> : a Zip whose second input yields NULL items (a Map whose function answers NULL for odd values; a Tuple holding
+         NULL): NULL is an item like any other - only Terminal ends an iteration, forwards and backwards */
+      int n = (int)hc_int(1); volatile long fw = 0, bw = 0, revok = 1, nulls = 0; static int64_t firsts[64];
+      HC_TRY(
+        var base = new(Array, Int); for (int i = 0; i < n; i++) push(base, $I(i));
+        var tup = new(Tuple); for (int i = 0; i < n; i++) push(tup, (i == 1) ? NULL : (var)new(Int, $I(i)));        /* (one NULL only: the same item twice in a Tuple is the open finding F-C04-tuple-dup) */
+        var fnull = mkfn(map_null_odd);
+        for (int which = 0; which < 2; which++) {
+          var z = which == 0 ? (var)new(Zip, base, new(Map, base, fnull)) : (var)new(Zip, base, tup);
+          long f1 = 0; long b1 = 0;
+          foreach (t in z) { if (f1 < 60) firsts[f1] = c_int(get(t, $I(0))); if (get(t, $I(1)) == NULL) nulls++; f1++; if (f1 > 100) break; }
+          for (var t = iter_last(z); t != Terminal && b1 < 100; t = iter_prev(z, t)) { if (b1 < f1 && f1 - 1 - b1 < 60 && firsts[f1 - 1 - b1] != c_int(get(t, $I(0)))) revok = 0; b1++; }
+          if ((long)len(z) != n) revok = 0;
+          fw += f1; bw += b1;
+        });
+      ev_begin("zipnull"); ev_int("n", n); ev_int("fwd", fw); ev_int("bwd", bw); ev_int("revok", revok); ev_int("nulls", nulls); ev_str("exc", hc_exc); ev_int("line", cur_line); ev_end();
+      continue;
+    }
     if (hc_is(0, "longview")) {
       /* longview <a> <b> <kind> : slices of a Range of N = a * 2^20 + b items (N beyond 2^31): the last items, addressed from the
          front, from the end, with a stop beyond the end, and the length of the reversed view; items are logged relative to N */
